@@ -33,7 +33,9 @@ def soup(rng, n, names=None, p_close=0.35, p_text=0.2, p_misc=0.04, attrs=0.15):
         elif r < p_text + p_misc:
             out.append(rng.choice(MISC))
         elif r < p_text + p_misc + p_close:
-            out.append("</%s>" % rng.choice(names))
+            # end tags may carry attributes and a solidus (parse errors, but the token has them)
+            extra = rng.choice(ATTRS) if rng.random() < 0.08 else ("/" if rng.random() < 0.03 else "")
+            out.append("</%s%s>" % (rng.choice(names), extra))
         else:
             a = "".join(rng.choice(ATTRS) for _ in range(rng.choice([1, 1, 2]))) if rng.random() < attrs else ""
             sc = "/" if rng.random() < 0.05 else ""
@@ -181,4 +183,49 @@ def foreign_directed(per=3):
                         g = FOREIGN_FOLLOW[(i * 11 + k * 5 + 3) % len(FOREIGN_FOLLOW)] if k == 2 else ""
                         out.append(pre + root + "<" + nm + ">" + ip + f + g)
                     i += 1
+    return out
+
+
+# ---- end tags that carry attributes; scope closers with a special element in between; namespaced attributes -------
+def closers_directed(keys):
+    out = []
+    names = sorted(set().union(*keys.values()) | {"br", "p", "div", "span", "svg", "math", "g", "mi"})
+    for i, n in enumerate(names):
+        for pre in ("", "<div>", "<table>", "<svg>", "<select>", "<p><b>")[i % 2::2]:
+            out.append(pre + "a</%s clear=all>b" % n)
+        out.append("</%s a=1 b=2/>x" % n)
+    return out
+
+
+REOPEN = ["button", "p", "li", "dd", "dt", "a", "nobr", "form", "h1", "option", "optgroup", "select", "table", "caption", "td", "th",
+          "tr", "tbody", "body", "html", "head", "ruby", "rt", "rp", "applet", "marquee", "object", "b", "font", "dialog", "pre",
+          "textarea", "title", "frameset", "colgroup"]
+BLOCKERS = ["div", "p", "ul", "li", "table", "td", "h1", "address", "blockquote", "button", "span", "svg", "math", "marquee", "b",
+            "select", "form", "dl", "fieldset", "caption", "tr"]
+
+
+def reopen_directed():
+    """<X> ... <X> and <X> ... </X> with one or two other elements open in between"""
+    out = []
+    for i, x in enumerate(REOPEN):
+        for j, b in enumerate(BLOCKERS):
+            b2 = BLOCKERS[(i + j * 3 + 1) % len(BLOCKERS)]
+            out.append("<%s><%s><%s>y" % (x, b, x))
+            out.append("<%s><%s>t</%s>y" % (x, b, x))
+            if (i + j) % 3 == 0:
+                out.append("<%s><%s><%s><%s>y</%s>z" % (x, b, b2, x, b))
+                out.append("<table><tr><td><%s><%s><%s>" % (x, b, x))
+    return out
+
+
+def foreign_attrs_directed():
+    out = []
+    at = [' xmlns="http://www.w3.org/2000/svg"', ' xmlns="http://www.w3.org/1998/Math/MathML"', ' xmlns=x',
+          ' xmlns:xlink="http://www.w3.org/1999/xlink"', " xlink:href=#a", " xml:lang=en", " xml:space=preserve", " xlink:title=t",
+          " xmlns:foo=bar", " foo:bar=1", " definitionurl=u", " viewbox=1", " xml:base=b", " xlink:foo=x", " xmlns:xlink=y"]
+    for root in ("svg", "math", "div", "svg><g", "math><mi", "svg><foreignObject><p", "table><svg"):
+        for i in range(len(at)):
+            a = at[i] + at[(i * 5 + 3) % len(at)]
+            out.append("<%s%s>x" % (root, a))
+            out.append("<%s%s%s><b>y" % (root, at[(i + 7) % len(at)], at[i]))
     return out
